@@ -3,6 +3,7 @@ package rules
 import (
 	"fmt"
 	"go/token"
+	"regexp"
 	"strings"
 
 	"golang.org/x/tools/go/ssa"
@@ -13,7 +14,7 @@ import (
 func init() {
 	register(&Spec{
 		ID: "C01",
-		Explanation: "Decides: R1 backtrack-undo pairing — after a child segment matched and its subtree search failed, every path to the next attempt / to giving up restores the remaining path from the value saved before the match and deletes exactly that child's capture (no other key); R2 capture discipline in the segment matcher (key = the segment's name, only when the name is not ignored, value = a prefix of the remaining path; every accepting exit of a parameter kind captured or ignores the name); R3 literal text spliced into a regexp is quoted; R4 handler lookup conformance of Tree.Handler (the handler returned is the lookup of the requested method — or of the 405 key — in the returned node's own map, 404 exactly with a nil node; the matcher returns only nil, its recursion result, or its receiver when the path is consumed and handlers exist); R5 only the segment matcher sets and only the backtracking matcher deletes request parameters below Tree.Handler. " +
+		Explanation: "Decides: R1 backtrack-undo pairing — after a child segment matched and its subtree search failed, every path to the next attempt / to giving up restores the remaining path from the value saved before the match and deletes exactly that child's capture (no other key); R2 capture discipline in the segment matcher (key = the segment's name, only when the name is not ignored, value = a prefix of the remaining path; every accepting exit of a parameter kind captured or ignores the name); R3 literal text spliced into a regexp is quoted; R4 handler lookup conformance of Tree.Handler (the handler returned is the lookup of the requested method — or of the 405 key — in the returned node's own map, 404 exactly with a nil node; the matcher returns only nil, its recursion result, or its receiver when the path is consumed and handlers exist); R5 only the segment matcher sets and only the backtracking matcher deletes request parameters below Tree.Handler; R6 first-byte index coherence (the index fast path deletes no capture because the index holds literal children only — that needs a coherent index, = C03.R1/R2); R7 Remove(pattern) drops every handler, so a removed pattern is never reported. " +
 			"Not decided: that captured text satisfies the regexp / interceptor constraint for all inputs (semantics of regexp and of user functions).",
 		Assumptions: append([]string{"Segment.Match changes ctx.Path and the parameters only when it returns true (checked for captures by R2)"}, commonAssumptions...),
 		Run: func(c *Ctx) {
@@ -22,6 +23,9 @@ func init() {
 			ruleRegexpQuoting(c, "R3")
 			ruleHandlerLookup(c, "R4")
 			ruleParamWriters(c, "R5")
+			ruleIndexRebuilt(c, "R6a")
+			ruleIndexRebuildComplete(c, "R6b")
+			ruleRemoveAllDropsEverything(c, "R7")
 		},
 	})
 }
@@ -323,9 +327,69 @@ func ruleRegexpQuoting(c *Ctx, rule string) {
 				bad = append(bad, an.AP(v))
 			}
 			check(call.Args[0])
+			// the user's rule is enclosed in a group of its own, on every alternative of the construction:
+			// (?:RULE)SUFFIX or (?P<NAME>RULE)SUFFIX — otherwise a top-level `|` in the rule swallows the suffix
+			alts := regexpAlternatives(c, call.Args[0], 0)
+			var ungrouped []string
+			for _, a := range alts {
+				if !regexpShape.MatchString(a) {
+					ungrouped = append(ungrouped, strings.NewReplacer("\x00N", "NAME", "\x00R", "RULE", "\x00Q", "QUOTED", "\x00X", "?").Replace(a))
+				}
+			}
+			if len(alts) > 0 {
+				c.R.Add(rule, c.fk(f), "regexp-source/rule-enclosed-in-group", c.pos(in), len(ungrouped) == 0, ifelse(len(ungrouped) == 0, fmt.Sprintf("%d construction alternative(s), all of the form (?:RULE)SUFFIX or (?P<NAME>RULE)SUFFIX", len(alts)), "the expression can be built as "+strings.Join(ungrouped, " / ")+": the user's rule is not enclosed in a group of its own, so an alternation in the rule captures the literal suffix into its last branch (other branches no longer require the suffix)"))
+			}
 			c.R.Add(rule, c.fk(f), "regexp-source/literal-text-quoted", c.pos(in), len(bad) == 0, ifelse(len(bad) == 0, "every non-constant part is the user's rule, the parameter name, or quoted text: "+t.String(), "pattern text "+strings.Join(bad, ", ")+" is spliced into a regular expression unquoted: its metacharacters ('.', '+', …) match other bytes than themselves"))
 		})
 	}
+}
+
+var regexpShape = regexp.MustCompile("^\\(\\?(:|P<\x00N>)\x00R\\)(\x00Q)?$")
+
+// regexpAlternatives expands the construction of a regexp source into its
+// alternatives (phi edges), with placeholders for the rule, the name, quoted text and anything else.
+func regexpAlternatives(c *Ctx, v ssa.Value, depth int) []string {
+	if depth > 8 {
+		return []string{"\x00X"}
+	}
+	switch x := v.(type) {
+	case *ssa.Const:
+		if s, ok := strConst(x); ok {
+			return []string{s}
+		}
+	case *ssa.BinOp:
+		if x.Op == token.ADD {
+			var out []string
+			for _, l := range regexpAlternatives(c, x.X, depth+1) {
+				for _, r := range regexpAlternatives(c, x.Y, depth+1) {
+					out = append(out, l+r)
+				}
+			}
+			return out
+		}
+	case *ssa.Phi:
+		var out []string
+		for _, e := range x.Edges {
+			out = append(out, regexpAlternatives(c, e, depth+1)...)
+		}
+		return out
+	case *ssa.Call:
+		if an.CalleeName(&x.Call) == "regexp.QuoteMeta" {
+			return []string{"\x00Q"}
+		}
+	case *ssa.UnOp:
+		if fa, ok := x.X.(*ssa.FieldAddr); ok && x.Op == token.MUL {
+			if o := ownerOf(fa); o != nil && o == c.A.SegmentT.Origin() {
+				switch an.FieldName(fa.X.Type(), fa.Field) {
+				case "rule":
+					return []string{"\x00R"}
+				case "Name":
+					return []string{"\x00N"}
+				}
+			}
+		}
+	}
+	return []string{"\x00X"}
 }
 
 // ruleHandlerLookup is C01.R4.
